@@ -419,6 +419,9 @@ def oracles(rec):
 
 # state names that clash on the pinned tree with what the dynamic wrapper writes unqualified (DESIGN §8); `C` is F6
 PRELUDE_LIKE = {'C', 'Ok', 'Err', 'Result', 'Default'}
+# words the runtime harness itself writes by full path around the definition: a suspect with a state of that name may
+# fail to build because of the *harness* (false alarm found on harmless H12); that such names compile is T4 advpos's job
+HARNESS_WORDS = {'None', 'Some', 'Option'}
 
 def scn_pair(rng, info, d, n_ops=10):
     """(dynamic ops, typed ops): newdyn + handles / newtyped + the typed methods of the same events"""
@@ -844,7 +847,7 @@ def run(tier, seed, work, repo, suspects=None, strict_suspects=None):
                     #  tree, are allowed by C18 and lie outside C14's domain — DESIGN §8)
                     def prelude_like(x):
                         names = {st['name'] for st in x['info'].get('states', [])} | set(x['info'].get('superstates', []))
-                        return bool(names & PRELUDE_LIKE)
+                        return bool(names & (PRELUDE_LIKE | HARNESS_WORDS))
                     if okk3[k] and all(x['info'].get('accepted', True) and not prelude_like(x) for x in g):
                         for x in g:
                             x['strict'] = True
